@@ -82,7 +82,7 @@ def api(call, fn, *a, **kw):
 #          with explicit, mixed and coarser units on the interval bounds
 #   failed_eval: seed -> every offline object first evaluates another, damaged log (a sensor delivers None): the call raises
 #          half-way, the exception is swallowed, and the object is then used as if nothing had happened
-#   knobs: seed -> every upper-case integer tuning constant (>= 16) found in the rtamt modules (cache sizes, scan limits,
+#   knobs: seed -> every upper-case integer tuning constant (>= 5, named like a limit / size / cache / threshold) found in the rtamt modules (cache sizes, scan limits,
 #          pending-queue caps ...) is set to a small value for the run, so that slow paths and evictions run on small inputs
 
 ENV = {}
@@ -111,7 +111,7 @@ def _knob_sites():
             holders = [mod] + [c for _, c in inspect.getmembers(mod, inspect.isclass) if getattr(c, '__module__', None) == mod.__name__]
             for h in holders:
                 for k, v in list(vars(h).items()):
-                    if k.isupper() and len(k) >= 3 and type(v) is int and v >= 16 and _KNOB_NAME.search(k):
+                    if k.isupper() and len(k) >= 3 and type(v) is int and v >= 5 and _KNOB_NAME.search(k):
                         sites.append((h, k, v))
         _KNOB_SITES = sites
     return _KNOB_SITES
@@ -348,6 +348,8 @@ def _build(desc):
         # the object was first parsed with ANOTHER specification text (a parameter sweep that re-uses one object)
         d0['spec'] = prior['spec']
         d0['subspecs'] = prior.get('subspecs') or []
+    if prior.get('io') is not None:
+        d0['io'] = prior['io']        # ... and with other input/output declarations, changed before the second parse()
     spec = new_spec(d0)
     api('parse', spec.parse)
     if prior.get('early_reset'):
@@ -370,6 +372,9 @@ def _build(desc):
                 pass
     if prior.get('spec') is not None:
         final = _decorate(desc) if ENV.get('decor') is not None else desc
+        if prior.get('io') is not None:
+            for v in sorted(desc.get('io') or {}):
+                api('set_var_io_type', spec.set_var_io_type, v, desc['io'][v])
         for sub in final.get('subspecs') or []:
             api('add_sub_spec', spec.add_sub_spec, sub)
         spec.spec = final['spec']
